@@ -119,6 +119,33 @@ Theorem clone_pair_WF t ops1 ops2 :
   WF (run t ops1) /\ WF (run (clone t) ops2).
 Proof. intros HW H1 H2. split; apply run_WF; auto. apply clone_WF. exact HW. Qed.
 
+(* --- local search: a rejected step restores the test case exactly ----------------------------- *)
+Lemma ls_attempts_rejected saved : forall atts cur,
+  WF saved -> snd (ls_attempts saved cur atts) = false ->
+  fst (ls_attempts saved cur atts) = cur \/ fst (ls_attempts saved cur atts) = saved.
+Proof.
+  induction atts as [|[p imp] r IH]; intros cur HW H; cbn [ls_attempts] in *; [left; reflexivity|].
+  destruct imp; [discriminate|]. right. rewrite (clone_eq saved HW) in *.
+  destruct (IH saved HW H) as [E|E]; exact E.
+Qed.
+
+Theorem ls_rejected_restores t atts :
+  WF t -> snd (ls_search t atts) = false -> fst (ls_search t atts) = t.
+Proof.
+  intros HW H. unfold ls_search in *. rewrite (clone_eq t HW) in *.
+  destruct (ls_attempts_rejected t atts t HW H); assumption.
+Qed.
+
+Theorem ls_search_WF t atts :
+  WF t -> Forall (fun a => WF (fst a)) atts -> WF (fst (ls_search t atts)).
+Proof.
+  intros HW. unfold ls_search. rewrite (clone_eq t HW).
+  assert (G : forall atts cur, WF cur -> Forall (fun a => WF (fst a)) atts -> WF (fst (ls_attempts t cur atts))).
+  { induction atts0 as [|[p imp] r IH]; intros cur Hc Hf; cbn [ls_attempts]; [exact Hc|].
+    inversion Hf; subst. destruct imp; [assumption|]. apply IH; [apply clone_WF; exact HW|assumption]. }
+  apply G. exact HW.
+Qed.
+
 (* --- insertion loop ---------------------------------------------------------------------------- *)
 Theorem insert_loop_bound maxlen : forall ps t,
   size (insert_loop maxlen t ps) <= Nat.max (size t) maxlen.
